@@ -92,15 +92,24 @@ def hVersion (m : Msg) : M Msg :=
   bind (convertExn (clause Gen.excVersion 0) .invalidMessage (getProtocolE m.payload)) fun v =>
   seq (modifySt fun s => { s with pv := some m.payload, proto := v }) (pure m)
 
+/-- `max(gateway.nodes) + 1 if gateway.nodes else 1` -/
+def nextId (nodes : PDict Int Node) : Int :=
+  match nodes.keys with
+  | [] => 1
+  | k :: ks => ks.foldl max k + 1
+
+/-- The temporary node registered for an id that was handed out. -/
+def placeholderNode : Node := { ntype := Gen.sArduinoNode, pv := Gen.defaultVersionStr.toList }
+
+/-- `gateway.nodes[next_id] = Node(next_id, S_ARDUINO_NODE, "1.4")` -/
+def allocNode : M Unit := modifySt fun s => { s with nodes := s.nodes.set (nextId s.nodes) placeholderNode }
+
 def hIdRequest (m : Msg) : M Msg :=
   bind getSt fun st =>
-  let next : Int := match st.nodes.keys with
-    | [] => 1
-    | k :: ks => ks.foldl max k + 1
-  if next > Gen.maxNodeId then raise (.lib .tooManyNodes)
+  if nextId st.nodes > Gen.maxNodeId then raise (.lib .tooManyNodes)
   else
-    seq (setNode next { ntype := Gen.sArduinoNode, pv := Gen.defaultVersionStr.toList })
-      (seq (gwSend ⟨m.node, m.child, m.cmd, 0, Gen.iIdResponse, dec next⟩ Gen.bufIdResponse) (pure m))
+    seq allocNode
+      (seq (gwSend ⟨m.node, m.child, m.cmd, 0, Gen.iIdResponse, dec (nextId st.nodes)⟩ Gen.bufIdResponse) (pure m))
 
 def hConfig (env : Env) (m : Msg) : M Msg :=
   seq (gwSend ⟨m.node, m.child, m.cmd, 0, m.type, if env.metric then ['M'] else ['I']⟩ Gen.bufConfig) (pure m)
